@@ -74,6 +74,9 @@ type vfStore struct {
 	// FailAt, if set, may fail a ReadAt/WriteAt on (path, offset).
 	FailAt func(path string, off int64, n int, write bool) error
 	// OpenErr, CmdErr, ListErr: injected handler results (nil = normal behaviour).
+	// CloseHook, if set, runs inside Close of a handler object, after the object has been marked closed and before
+	// Close returns (a slow Close: it may block).
+	CloseHook func(path string)
 	// CloseErr, if set, is what Close of a handler object returns (the object still counts the call).
 	CloseErr func(path string) error
 	// PartialAt, if set, may make a ReadAt deliver keep bytes and then fail with err (n > 0 together with a non-EOF error).
@@ -310,6 +313,9 @@ func (o *vfObj) Close() error {
 	}
 	o.closed.Store(true)
 	o.closes.Add(1)
+	if o.st.CloseHook != nil {
+		o.st.CloseHook(o.path)
+	}
 	if o.st.CloseErr != nil {
 		return o.st.CloseErr(o.path)
 	}
